@@ -77,6 +77,23 @@ type spec struct {
 	// replaced: every callback of a function-style node is first set to a decoy of the OTHER
 	// style and then replaced by the real one (the last setting of a phase wins)
 	replaced bool
+	// exitAs (flow specs): the flow is wrapped in a user type that embeds *flyt.Flow and overrides
+	// Post to finish with this fixed action — as a node of another flow it is routed on THAT action
+	exitAs flyt.Action
+}
+
+// wrapFlow: a user node type embedding *flyt.Flow (Prep and Exec are the flow's own) whose Post
+// gives the sub-flow a fixed exit action.
+type wrapFlow struct {
+	*flyt.Flow
+	exit flyt.Action
+}
+
+func (w *wrapFlow) Post(ctx context.Context, shared *flyt.SharedStore, prepResult, execResult any) (flyt.Action, error) {
+	if _, err := w.Flow.Post(ctx, shared, prepResult, execResult); err != nil {
+		return "", err
+	}
+	return w.exit, nil
 }
 
 type flowSpec struct {
@@ -341,6 +358,9 @@ func (s *sim) runFlow(f *spec) (flyt.Action, error) {
 	// Flow.Post: the action of the last node; normalised like any node
 	if last == "" {
 		last = flyt.DefaultAction
+	}
+	if f.exitAs != "" {
+		last = f.exitAs // a wrapper's own Post has the last word
 	}
 	return last, nil
 }
@@ -690,7 +710,11 @@ func (h *H) build(s *spec) flyt.Node {
 			panic("spec: flow starts with itself")
 		}
 		f = flyt.NewFlow(nil)
-		h.nodes[s] = f // registered first: the flow may contain itself as a node
+		var built flyt.Node = f
+		if s.exitAs != "" {
+			built = &wrapFlow{Flow: f, exit: s.exitAs}
+		}
+		h.nodes[s] = built // registered first: the flow may contain itself as a node
 		outermost := h.buildDepth == 0
 		h.buildDepth++
 		*f = *flyt.NewFlow(h.build(s.flow.start))
@@ -721,7 +745,7 @@ func (h *H) build(s *spec) flyt.Node {
 			}
 		}
 		h.buildDepth--
-		return f
+		return built
 	}
 	opts := []flyt.NodeOption{flyt.WithMaxRetries(s.n)}
 	if s.wait > 0 {
